@@ -550,6 +550,23 @@ def np_all(interp, args, kwargs):
         src = x.buf.fn
         cols = conc(x.cols)
         return Vec(x.rows, lambda i: Bool(z3.And(*[_tz(ctx, src(i, j)) for j in range(cols)])), kind="ndarray", elem="bool")
+    if isinstance(x, Mat) and "axis" in kwargs and conc(kwargs["axis"].z) in (0, 1):
+        # general extent: one universally quantified formula per row (axis=1) / column (axis=0)
+        ax = conc(kwargs["axis"].z)
+        src = x.buf.fn
+        ext = zint(x.cols if ax == 1 else x.rows)
+
+        def elem(i):
+            k = z3.Int(ctx.fresh("all"))
+            ctx.binder_stack.append([])
+            try:
+                body = _tz(ctx, src(i, k) if ax == 1 else src(k, i))
+            finally:
+                ctx.binder_stack.pop()
+            return Bool(z3.ForAll([k], z3.Implies(z3.And(k >= 0, k < ext), body)))
+        out = Vec(x.rows if ax == 1 else x.cols, elem, kind="ndarray", elem="bool")
+        out.all_of = (x, ax)
+        return out
     if isinstance(x, Bool):
         return x
     if isinstance(x, Vec):
@@ -598,10 +615,36 @@ def _vec_all(interp, self, args, kwargs):
     return np_all(interp, [self], {})
 
 
+@lib("numpy.empty_like")
+def np_empty_like(interp, args, kwargs):
+    """np.empty_like(M): same shape, unspecified contents (a fresh uninterpreted function)"""
+    ctx = interp.ctx
+    x = args[0]
+    if not isinstance(x, Mat):
+        raise Unsupported("empty_like of a non-matrix")
+    f = ctx.func("empty_like", z3.IntSort(), z3.IntSort(), z3.RealSort())
+    return Mat(x.rows, x.cols, lambda i, j: Num(f(zint(i), zint(j)), False), elem="real")
+
+
+def _mat_isnan(interp, x: Mat):
+    src = x.buf.fn
+    return Mat(x.rows, x.cols, lambda i, j: _isnan(src(i, j)), elem="bool")
+
+
+@method("mat", "@unary:~")
+def _mat_invert(interp, self: Mat, args, kwargs):
+    if self.elem != "bool":
+        raise Unsupported("~ of a non-boolean matrix")
+    src = self.buf.fn
+    return Mat(self.rows, self.cols, lambda i, j: Bool(z3.Not(_tz(interp.ctx, src(i, j)))), elem="bool")
+
+
 @lib("numpy.isnan")
 def np_isnan(interp, args, kwargs):
     ctx = interp.ctx
     x = args[0]
+    if isinstance(x, Mat):
+        return _mat_isnan(interp, x)
     if isinstance(x, Vec):
         return vec_elemwise(ctx, lambda a: _isnan(a), [x], elem="bool", what="isnan")
     return _isnan(x)
@@ -780,6 +823,8 @@ def _mat_setitem(interp, self: Mat, args, kwargs):
             src = val.buf.fn
             self.buf.write(lambda a, b: ite_val(z3.And(zint(a) >= sz, zint(a) < sz + cz), src(z3.simplify(zint(a) - sz), b), old(a, b)))
             return NONE
+        if isinstance(val, Opaque) and val.tag == "nan":
+            val = NanNum(z3.RealVal(0), z3.BoolVal(True))
         if isinstance(val, (Num, Bool)):
             self.buf.write(lambda a, b: ite_val(z3.And(zint(a) >= sz, zint(a) < sz + cz), val, old(a, b)))
             return NONE
@@ -791,6 +836,40 @@ def _mat_setitem(interp, self: Mat, args, kwargs):
         iz, jz = zint(i), zint(j)
         self.buf.write(lambda a, b: ite_val(z3.And(zint(a) == iz, zint(b) == jz), val, old(a, b)))
         return NONE
+    def _is_prefix_range(v):
+        """the index list is 0, 1, ..., K-1 (checked on a symbolic position): returns K or None"""
+        if not (isinstance(v, Vec) and v.elem == "int"):
+            return None
+        pk = ctx.int("probe")
+        ctx.binder_stack.append([])
+        try:
+            e = vget(ctx, v, pk)
+        finally:
+            ctx.binder_stack.pop()
+        return v.length if z3.is_true(z3.simplify(to_num(e).z == pk)) else None
+    full = lambda p: isinstance(p, tuple) and p[0] == "slice" and all(x is None or isinstance(x, NoneV) for x in p[1:])
+    if isinstance(idx, tuple) and idx[0] == "tuple" and len(idx[1]) == 2 and isinstance(val, Mat):
+        a, b = idx[1]
+        old = self.buf.fn
+        src = val.buf.fn
+        if full(b) and _is_prefix_range(a) is not None:          # M[[0..K-1], :] = other (K x cols)
+            K = zint(_is_prefix_range(a))
+            for x, y, w in ((val.rows, K, "rows"), (val.cols, self.cols, "columns")):
+                if not ctx.branch(zint(x) == zint(y), f"fancy-assign-{w}"):
+                    raise PyRaise("ValueError", "shape mismatch: value array could not be broadcast to indexing result")
+            if not ctx.branch(K <= zint(self.rows), "fancy-assign-index-in-range"):
+                raise PyRaise("IndexError", "index out of bounds")
+            self.buf.write(lambda i, j: ite_val(z3.And(zint(i) >= 0, zint(i) < K), src(i, j), old(i, j)))
+            return NONE
+        if full(a) and _is_prefix_range(b) is not None:          # M[:, [0..K-1]] = other (rows x K)
+            K = zint(_is_prefix_range(b))
+            for x, y, w in ((val.cols, K, "columns"), (val.rows, self.rows, "rows")):
+                if not ctx.branch(zint(x) == zint(y), f"fancy-assign-{w}"):
+                    raise PyRaise("ValueError", "shape mismatch: value array could not be broadcast to indexing result")
+            if not ctx.branch(K <= zint(self.cols), "fancy-assign-index-in-range"):
+                raise PyRaise("IndexError", "index out of bounds")
+            self.buf.write(lambda i, j: ite_val(z3.And(zint(j) >= 0, zint(j) < K), src(i, j), old(i, j)))
+            return NONE
     raise Unsupported("matrix store with this index")
 
 
